@@ -7,6 +7,7 @@ import (
 	publictypes "lunar/engine/streams/public-types"
 	streamtypes "lunar/engine/streams/types"
 	"lunar/toolkit-core/otel"
+	"lunar/toolkit-core/verifhook"
 
 	lunar_metrics "lunar/engine/metrics"
 
@@ -86,6 +87,7 @@ func (p *limiterProcessor) Execute(
 	if err = quota.Inc(apiStream); err != nil {
 		return streamtypes.ProcessorIO{}, err
 	}
+	verifhook.Point("limiter.after_inc", "quota", p.quotaID, "req", apiStream.GetID())
 
 	isAllowed, err := quota.Allowed(apiStream)
 	if err != nil {
